@@ -62,6 +62,8 @@ def merge_stats(a, b):
             a[k].extend(v)
             if k.startswith('sample'):
                 del a[k][6:]
+            elif k.startswith('refsample'):
+                del a[k][64:]
         elif isinstance(v, bool):
             a[k] = a[k] or v
         elif isinstance(v, (int, float)):
